@@ -14,7 +14,7 @@ STUB_SOURCES = ["c28_psy_data_base_mod.f90", "profile_psy_data_mod.f90",
                 "extract_psy_data_mod.f90", "nan_test_psy_data_mod.f90",
                 "read_only_verify_psy_data_mod.f90"]
 GFORTRAN = "/usr/bin/gfortran"
-FFLAGS = ["-O0", "-fimplicit-none", "-fcheck=bounds", "-ffree-line-length-none"]
+FFLAGS = ["-O0", "-fimplicit-none", "-ffree-line-length-none"]
 
 TRANS = ["ProfileTrans", "ExtractTrans", "NanTestTrans", "ReadOnlyVerifyTrans"]
 # explicit region names (cannot collide with the default '<routine>', 'r<i>')
@@ -307,6 +307,8 @@ def run_batch(exe, workdir, jobs):
         if line.startswith("RUN "):
             cur = {"rid": int(line[4:]), "trace": [], "a": None}
             results.append(cur)
+        elif cur is None:
+            raise HarnessError(f"output line '{line}' before the first RUN")
         elif line.startswith("RES"):
             cur["a"] = [int(x) for x in line.split()[1:]]
         elif line.startswith("ENTER ") or line.startswith("EXIT "):
